@@ -151,3 +151,24 @@ ENTRY int verif_opl_roundtrip(int kind, const long* f, unsigned md, unsigned cha
         return d.overflow ? 9 : 0;
     } catch (const osmium::opl_error&) { return 1; } catch (const std::exception&) { return 2; }
 }
+
+// ---------------------------------------------------------------- XML writer half: one object through XMLOutputBlock (change files: <create> / <modify> / <delete> sections)
+#include <osmium/io/detail/xml_output_format.hpp>
+ENTRY int verif_xml_write_object(int kind, long id, unsigned version, int visible, int change_ops, char* text, unsigned textcap, unsigned* textlen) {
+    try {
+        memory::Buffer in{1024};
+        if (kind == 0) { { builder::NodeBuilder b{in}; b.set_id(id).set_version(version).set_visible(visible != 0).set_location(Location{10000000, 20000000}); b.set_user("u"); } }
+        else if (kind == 1) { { builder::WayBuilder b{in}; b.set_id(id).set_version(version).set_visible(visible != 0); b.set_user("u"); { builder::WayNodeListBuilder wn{b}; wn.add_node_ref(5); } } }
+        else { { builder::RelationBuilder b{in}; b.set_id(id).set_version(version).set_visible(visible != 0); b.set_user("u"); { builder::RelationMemberListBuilder ml{b}; ml.add_member(item_type::way, 6, "r"); } } }
+        in.commit();
+        xml_output_options options;
+        options.add_metadata = osmium::metadata_options{};
+        options.add_metadata.set_version(true);
+        options.use_change_ops = change_ops != 0;
+        options.add_visible_flag = !change_ops;
+        const std::string out = XMLOutputBlock{std::move(in), options}();
+        if (out.size() + 1 > textcap) return 9;
+        std::memcpy(text, out.c_str(), out.size() + 1); *textlen = static_cast<unsigned>(out.size());
+        return 0;
+    } catch (const std::exception&) { return 2; }
+}
